@@ -195,6 +195,8 @@ func (g *Gen) seedGenesis(gs *GenesisSpec) {
 		}
 		// "zz" sorts after every other id: the owner of the last denom in key order
 		p.Denoms = append(p.Denoms, map[string]string{"id": "zz-last", "name": "last", "symbol": "Z", "desc": "", "uri": "", "uri_hash": "", "data": "", "owner": g.addr(5)})
+		// ... and it holds a token (a denom beyond the first page that is not empty)
+		p.Tokens = append(p.Tokens, map[string]string{"denom": "zz-last", "id": "t", "name": "t", "desc": "", "uri": "", "uri_hash": "", "data": "", "creator": g.addr(5), "owner": g.addr(5), "at": fmt.Sprint(gs.TimeUnix - 3)})
 	}
 	if r.Chance(0.12) {
 		// two tokens whose (denom id, token id) pairs read the same once joined with a separator
